@@ -28,8 +28,8 @@ ASSUMPTIONS = ["CPU generator only (no GPU in the sandbox)", "construction draws
 COUNTS = ("states = histories x seeds (each history is a distinct state: no merging); transitions = operations executed across the three runs; "
           "traces_validated_against_impl = histories whose three runs satisfied all comparisons")
 
-OPS = ["reinit", "fit_saver", "fit_callbacks", "load_sample", "overwrite_space", "sample", "sample_one", "sample_init", "stats", "stats_one", "sysstats", "fit", "fit_neg", "grad", "exact", "rotate", "metric", "save", "apply"]
-READONLY = {"overwrite_space", "sample", "sample_one", "stats_one", "sample_init", "stats", "sysstats", "grad", "exact", "rotate", "metric", "save", "apply"}
+OPS = ["reinit", "fit_saver", "fit_callbacks", "load_sample", "sample_k0", "overwrite_space", "sample", "sample_one", "sample_init", "stats", "stats_one", "sysstats", "fit", "fit_neg", "grad", "exact", "rotate", "metric", "save", "apply"]
+READONLY = {"sample_k0", "overwrite_space", "sample", "sample_one", "stats_one", "sample_init", "stats", "sysstats", "grad", "exact", "rotate", "metric", "save", "apply"}
 DATA = torch.tensor([[0.0, 1.0], [1.0, 1.0], [1.0, 0.0]], dtype=torch.double)
 BASES = np.array([list("ZZ"), list("XY"), list("YZ")])
 BASES_FIT = np.array([list("ZZ"), list("XY"), list("ZZ")])
@@ -220,6 +220,10 @@ def do(op, st, tmp):
         a_ = st.sample(k=2, num_samples=8)
         b_ = type(st).autoload(fx, gpu=False).sample(k=1, num_samples=4)
         return [a_, b_]
+    if op == "sample_k0":
+        # the documented boundary k = 0 / burn_in = 0: what comes back is the randomly drawn START of the chains - drawn,
+        # like everything else, from the seeded stream
+        return [st.sample(k=0, num_samples=24), O.SigmaZ().statistics(st, num_samples=16, num_chains=16, burn_in=0, steps=0)]
     if op == "overwrite_space":
         # the caller owns what generate_hilbert_space returned: advancing it in place is documented API
         own = st.generate_hilbert_space()
@@ -311,7 +315,7 @@ def check_history(acc, kind, hist, seed, tmp, flagged):
         flag(f"repro:raised:{e.kind}:{e.site}", e.tb)
         return
     acc.transitions += 3 * len(hist)
-    randomized = any(op in ("reinit", "fit_saver", "fit_callbacks", "load_sample", "overwrite_space", "sample", "sample_one", "stats_one", "sample_init", "stats", "sysstats", "fit", "fit_neg") for op in hist)
+    randomized = any(op in ("reinit", "fit_saver", "fit_callbacks", "load_sample", "sample_k0", "overwrite_space", "sample", "sample_one", "stats_one", "sample_init", "stats", "sysstats", "fit", "fit_neg") for op in hist)
     acc.ev(1, nontrivial=randomized)
     ok = True
     if a != b:
@@ -331,6 +335,10 @@ def check_history(acc, kind, hist, seed, tmp, flagged):
     for j, op in enumerate(hist):
         if op == "load_sample" and a[j + 1][0] == c[j + 1][0]:
             flag("repro:different-seed-gives-identical-draws-after-loading-a-checkpoint")
+            ok = False
+            break
+        if op == "sample_k0" and a[j + 1][0][0] == c[j + 1][0][0]:
+            flag("repro:different-seed-gives-identical-start-states")
             ok = False
             break
     # every weight tensor of every network is (re)drawn from the seeded stream: with another seed each of
@@ -415,7 +423,7 @@ def run_item(item):
         # under some other seed, then seeded and reinitialised, must come out the same
         if first == "reinit":
             reinit_after_seeding(acc, kind, flagged)
-        third = ["reinit", "sample", "stats", "sysstats", "fit", "fit_callbacks", "load_sample", "grad", "metric", "save"] if tier == "quick" else OPS
+        third = ["reinit", "sample", "stats", "sysstats", "fit", "fit_callbacks", "load_sample", "sample_k0", "grad", "metric", "save"] if tier == "quick" else OPS
         for b in OPS:
             for c in third:
                 check_history(acc, kind, (first, b, c), 0, tmp, flagged)
